@@ -70,7 +70,7 @@ func vClaimsOf(tok jwt.Token) vClaims {
 		if v, found := tok.Get(jwt.JwtIDKey); found {
 			js, _ = v.(string)
 		}
-		_, err := uuid.Parse(js)
+		err := uuid.Validate(js) // the library's strict verdict (Parse ignores the ends of the 38-byte form; repo fix 4b9197f)
 		ok := err == nil
 		c.Jti = &ok
 		jh := hex.EncodeToString([]byte(js))
@@ -458,8 +458,10 @@ func TestVerifC04Tok(t *testing.T) {
 				{"jti-uuid-dash-moved", "jti-not-uuid", func(c map[string]interface{}) { u := uuid.NewString(); c["jti"] = u[:7] + "-" + u[7:8] + u[9:] }},
 				{"jti-uuid-space-padded", "jti-not-uuid", func(c map[string]interface{}) { c["jti"] = " " + uuid.NewString() }},
 				{"jti-array", "jti-not-uuid", func(c map[string]interface{}) { c["jti"] = []string{uuid.NewString()} }},
-				// google/uuid v1.6.0 does not look at the first and last byte of the 38-byte form: no demand either way
-				{"jti-uuid-38-any-ends", "jti-38-unchecked-ends", func(c map[string]interface{}) { c["jti"] = "x" + uuid.NewString() + "y" }},
+				// google/uuid v1.6.0 Parse does not look at the first and last byte of the 38-byte form; Validate does
+				{"jti-uuid-38-any-ends", "jti-not-uuid", func(c map[string]interface{}) { c["jti"] = "x" + uuid.NewString() + "y" }},
+				{"jti-uuid-38-text-ends", "jti-not-uuid", func(c map[string]interface{}) { c["jti"] = "'" + uuid.NewString() + ";" }},
+				{"jti-uuid-38-open-brace-only", "jti-not-uuid", func(c map[string]interface{}) { c["jti"] = "{" + uuid.NewString() + "-" }},
 				{"times-fractional", "valid", func(c map[string]interface{}) { c["iat"] = float64(nowU) - 60.5; c["nbf"] = float64(nowU) - 60.25 }},
 				{"times-as-strings", "valid", func(c map[string]interface{}) { c["exp"] = strconv.FormatInt(nowU+3600, 10) }},
 				{"extra-claims", "valid", func(c map[string]interface{}) { c["admin"] = true; c["scope"] = "all" }},
@@ -602,7 +604,7 @@ func TestVerifC04Tok(t *testing.T) {
 	// --- the jti grammar: the real uuid.Parse against the model's uuidParse on strings built around UUIDs
 	if len(only) == 0 {
 		hexd := "0123456789abcdefABCDEF"
-		junk := []string{"", "x", "-", "{", "}", "id", "{}", "-1", "urn:uuid:", "URN:UUID:", "Urn:Uuid:", "urn-uuid:", "urn:uuid", "batch-", "-retry-17", " ", "\n", "\x00", "\u212a", "urn:uuid:{", "ſ"}
+		junk := []string{"", "x", "-", "{", "}", "{", "}", "'", ";", "id", "{}", "-1", "urn:uuid:", "URN:UUID:", "Urn:Uuid:", "urn-uuid:", "urn:uuid", "batch-", "-retry-17", " ", "\n", "\x00", "\u212a", "urn:uuid:{", "ſ"}
 		for i := 0; i < 400; i++ {
 			u := uuid.NewString()
 			switch r.Intn(6) {
@@ -627,7 +629,7 @@ func TestVerifC04Tok(t *testing.T) {
 				s += uuid.NewString()
 			}
 			_, err := uuid.Parse(s)
-			out.emit(map[string]interface{}{"op": "uuid", "s": hex.EncodeToString([]byte(s)), "show": strconv.QuoteToASCII(s)}, fmt.Sprintf("%v", err == nil))
+			out.emit(map[string]interface{}{"op": "uuid", "s": hex.EncodeToString([]byte(s)), "show": strconv.QuoteToASCII(s)}, fmt.Sprintf("%v %v", err == nil, uuid.Validate(s) == nil))
 		}
 	}
 
